@@ -686,14 +686,13 @@ func execCand(r *mon.Run, c *Cand, rng *rand.Rand) {
 			for k := 0; k < 3; k++ {
 				in := Instantiate(rng, t, reqDesc(), false)
 				verb := reqVerbFor(rng, c.Rule.Verb)
-				body := ""
-				if c.Rule.Body != "" {
-					body = []string{`{"a":"x"}`, `{"k":"v"}`, `"x"`}[k]
-				}
+				// (bodies are not sent: a query string stands in for the
+				// competing values)
+				body := []string{"", "a=x", "m.value=v&n=1"}[k]
 				o := b.Do(verb, in.Path(), body, nil)
 				r.Count("unspecified_accepted_probes", 1)
 				if o.Panic != nil {
-					r.Violate(o.Panic.Key()+":unspecified-rule-accepted:"+reason, fmt.Sprintf("%s %s (body %q) panicked after %s %q body=%q response_body=%q (%s) was accepted: %s", verb, in.Path(), body, c.Rule.Verb, c.Rule.Tmpl, c.Rule.Body, c.Rule.Resp, reason, o.Panic.Value), c)
+					r.Violate(o.Panic.Key()+":unspecified-rule-accepted:"+reason, fmt.Sprintf("%s %s (query %q) panicked after %s %q body=%q response_body=%q (%s) was accepted: %s", verb, in.Path(), body, c.Rule.Verb, c.Rule.Tmpl, c.Rule.Body, c.Rule.Resp, reason, o.Panic.Value), c)
 					return
 				}
 			}
